@@ -1511,3 +1511,47 @@ def rule_info_attribute_normalised(ctx):
     ctx.check(norm(kw) == key, rule, f"attribute={norm(kw)[:30]}", func=f, node=ctor[0], construct="attribute-not-normalised",
               msg=f"the line is built with `attribute={norm(kw)}` but its format was selected with `{key}`: a historical spelling (`midiFilename`) is "
                   f"carried into the 1.0.0 line, written with the wrong quoting and lost when the file is read again")
+
+
+def rule_sound_off_not_before_release(ctx):
+    rule = "SOUND-ge"
+    ctx.rule(rule, "adjust_offsets_w_sustain never lowers a sounding end below the release: every min() applied to the sounding-end "
+                   "array takes its other operand from strikes selected by a comparison with the releases (`>= release`), or the "
+                   "result is clamped from below by the releases")
+    f = ctx.prog.func("partitura.performance:adjust_offsets_w_sustain", rule)
+    defs = local_defs(f)
+    # by role: the array written into note["sound_off"]
+    out = None
+    for lp in own_nodes(f.node):
+        if isinstance(lp, ast.For) and isinstance(lp.iter, ast.Call) and norm(lp.iter.func) == "zip" and \
+                any(isinstance(t, ast.Subscript) and isinstance(t.slice, ast.Constant) and t.slice.value == "sound_off" and isinstance(t.ctx, ast.Store) for t in ast.walk(lp)):
+            out = next((a.id for a in lp.iter.args if isinstance(a, ast.Name) and any(isinstance(v, ast.Call) and "fromiter" in norm(v.func) for v in defs.get(a.id, []))), None)
+    ctx.require(out is not None, rule, f.qname, "sounding-end array not found")
+    release_copies = {n for n, vs in defs.items() for v in vs if isinstance(v, ast.Call) and norm(v.func) == f"{out}.copy"}
+    n = 0
+    for s in own_nodes(f.node):
+        if not (isinstance(s, ast.Assign) and isinstance(s.targets[0], ast.Subscript) and norm(s.targets[0].value) == out):
+            continue
+        mins = [c for c in ast.walk(s.value) if isinstance(c, ast.Call) and norm(c.func) in ("min", "np.minimum", "numpy.minimum")]
+        if not mins:
+            continue
+        n += 1
+        clamped = any(isinstance(c, ast.Call) and norm(c.func) in ("max", "np.maximum") and any(any(isinstance(x, ast.Name) and x.id in release_copies for x in ast.walk(a)) for a in c.args)
+                      for c in ast.walk(s.value))
+        selected = False
+        for m in mins:
+            for a in m.args:
+                todo, seen = [a], set()
+                while todo:
+                    e = todo.pop()
+                    for x in ast.walk(e):
+                        if isinstance(x, ast.Compare) and isinstance(x.ops[0], (ast.LtE, ast.Lt, ast.GtE, ast.Gt)) and \
+                                any(isinstance(y, ast.Name) and y.id in release_copies for y in ast.walk(x)):
+                            selected = True
+                        if isinstance(x, ast.Name) and x.id in defs and x.id not in seen and x.id != out:
+                            seen.add(x.id)
+                            todo.extend(defs[x.id])
+        ctx.check(clamped or selected, rule, f"`{norm(s)[:50]}`", func=f, node=s, construct="sound-off-below-release",
+                  msg=f"`{norm(s)[:80]}` lowers the sounding end to the next strike of the pitch whatever its time: a strike *before* the note's own release "
+                      f"(overlapping notes of one pitch) gives sound_off < note_off and PerformedPart raises")
+    ctx.floor(rule, "min() updates of the sounding-end array", n, 1)
